@@ -85,6 +85,18 @@ fn check_list(rep: &mut Report, l: &Value, m: &Model, route: &'static str, rng: 
     if n == 0 {
         // append([], t) is t itself
         c.that("empty-append", 0, same(l, &m.t), || "Value::append of no elements is not the tail".into());
+        if proper {
+            // the empty list: every traversal yields nothing, and it is a proper list
+            let ok = l.to_vec().map_or(false, |v| v.is_empty())
+                && l.to_ref_vec().map_or(false, |v| v.is_empty())
+                && l.list_iter().map_or(false, |mut it| it.next().is_none())
+                && l.is_list()
+                && !l.is_dotted_list()
+                && l.get(0usize).is_none()
+                && l[0usize].is_nil()
+                && l.as_cons().is_none();
+            c.that("empty-list-traversals", 0, ok, || format!("(): to_vec={:?} to_ref_vec={:?} list_iter.is_some={} is_list={} is_dotted_list={}", l.to_vec().map(|v| v.len()), l.to_ref_vec().map(|v| v.len()), l.list_iter().is_some(), l.is_list(), l.is_dotted_list()));
+        }
         return;
     }
     let cell: &Cons = match l.as_cons() {
